@@ -84,7 +84,7 @@ def run_one(ck, prog):
     ck.floor("C01.1", "loads", len(loads), 1)
 
     cg = prog.callgraph()
-    guard_drop = [p for p, f in prog.fns.items() if f.get("impl_trait") == "core::ops::Drop" and (f.get("impl_self") or "").startswith(GUARD)]
+    guard_drop = [p for p, f in prog.fns.items() if f.get("impl_trait") == "core::ops::drop::Drop" and (f.get("impl_self") or "").startswith(GUARD)]
     ck.anchor("C01.2", "Drop for MutexGuard", guard_drop)
 
     # ---- C01.2 only the holder writes 0 ---------------------------------------
@@ -216,7 +216,7 @@ def run_one(ck, prog):
                 tg = target_of(e)
                 if tg and tg[0] == "field" and tg[1] == MUTEX and tg[2] == "data":
                     users.append(p)
-    allowed = {f"<{GUARD}<'_, T> as core::ops::Deref>::deref", f"<{GUARD}<'_, T> as core::ops::DerefMut>::deref_mut",
+    allowed = {f"<{GUARD}<'_, T> as core::ops::deref::Deref>::deref", f"<{GUARD}<'_, T> as core::ops::deref::DerefMut>::deref_mut",
                MUTEX + "::<T>::get_mut", MUTEX + "::<T>::into_inner"}
     for u in sorted(set(users)):
         ck.ob("C01.5", f"data-access|{u}", u in allowed, fn=u,
